@@ -234,10 +234,11 @@ def _rename_stmt_type(pairs, rule):
     return go
 
 
-def _view_reference(sh, fired):
+def _target_reference(sh, fired):
+    """the target of CREATE VIEW / CREATE TABLE AS is an `object_reference` (tsql, materialize, redshift) or a `view_reference` (exasol)"""
     def f(n):
-        if n[0] == "create_view_statement" and len(n) > 1 and n[1][0] in ("object_reference", "view_reference"):
-            fired.add("view-target-" + n[1][0])
+        if n[0] in ("create_view_statement", "create_table_statement") and len(n) > 1 and n[1][0] in ("object_reference", "view_reference"):
+            fired.add(("view" if n[0] == "create_view_statement" else "ctas") + "-target-" + n[1][0])
             return [n[0], ["table_reference"] + n[1][1:]] + n[2:]
         return n
     return _map(sh, f)
@@ -291,6 +292,17 @@ def _case_end_alias(sh, fired):
     return _map(sh, f)
 
 
+def _clickhouse_using(sh, fired):
+    """clickhouse allows an unparenthesised USING list, so `join t2 using (a), t3` continues the USING list with `t3` instead of
+    starting the next comma-separated FROM entry   [non-core reading: detected, the statement is left out for this dialect]"""
+    def f(n):
+        if n[0] == "join_clause" and len(n) >= 4 and n[1][0] == "from_expression_element" and n[2][0] == "bracketed" and \
+                all(k == ["identifier"] for k in n[3:]):
+            fired.add("using-list-continues-after-bracket")
+        return n
+    return _map(sh, f)
+
+
 def _tsql_using(sh, fired):
     """tsql has no JOIN … USING: `join t2 using (a)` is read as table t2 with alias `using` and column aliases (and a following join
     nests inside this one)   [non-core reading: detected, the statement is left out for this dialect, no rewriting]"""
@@ -312,9 +324,11 @@ SHAPE_RULES = [
      "CREATE TABLE AS is `create_table_as_statement` (claimed by the same extractor: Props.C09.alias_same_extractor)"),
     ("ctas-type-unclaimed", ["impala"], None, "finding:K3",
      "CREATE TABLE AS is `create_table_as_select_statement`, claimed by no extractor (Props.C09.dev_K3_unclaimed)"),
-    ("view-target-object_reference", ["tsql", "materialize"], _view_reference, "neutral",
+    ("view-target-object_reference", ["tsql", "materialize"], _target_reference, "neutral",
      "CREATE VIEW target is `object_reference` (create_insert.py accepts table_reference and object_reference)"),
-    ("view-target-view_reference", ["exasol"], _view_reference, "finding:K2",
+    ("ctas-target-object_reference", ["redshift"], _target_reference, "neutral",
+     "CREATE TABLE AS target is `object_reference` (accepted like table_reference)"),
+    ("view-target-view_reference", ["exasol"], _target_reference, "finding:K2",
      "CREATE VIEW target is `view_reference`, which create_insert.py does not accept as a target"),
     ("cast-type-arguments-as-sibling", ["hive", "impala", "clickhouse"], _cast_type_args, "neutral",
      "the arguments of a parametrised type in CAST are a sibling `expression` of `data_type`"),
@@ -326,6 +340,8 @@ SHAPE_RULES = [
      "the alias after CASE … END (no AS) is a child of the case_expression"),
     ("using-read-as-alias", ["tsql"], _tsql_using, "noncore",
      "JOIN t USING (c) is read as table t aliased `using` (T-SQL has no USING)"),
+    ("using-list-continues-after-bracket", ["clickhouse"], _clickhouse_using, "noncore",
+     "JOIN t USING (c), t3: the USING list may be unparenthesised in ClickHouse, so `, t3` is read as a further USING column"),
 ]
 RULE_KIND = {r[0]: r[3] for r in SHAPE_RULES}
 RULE_DIALECTS = {r[0]: r[1] for r in SHAPE_RULES}
@@ -337,7 +353,7 @@ def normalise_shape(sh, dialect, aliases, unclaimed):
     sh = _unwrap_batch(sh, fired)
     sh = _rename_stmt_type(aliases, "ctas-type-alias")(sh, fired)
     sh = _rename_stmt_type(unclaimed, "ctas-type-unclaimed")(sh, fired)
-    for f in (_view_reference, _cast_type_args, _partition_unwrapped, _in_tuple, _case_end_alias, _tsql_using):
+    for f in (_target_reference, _cast_type_args, _partition_unwrapped, _in_tuple, _case_end_alias, _tsql_using, _clickhouse_using):
         sh = f(sh, fired)
     return sh, fired
 
